@@ -25,7 +25,12 @@ def parse_kv(line):
 
 # ---------------------------------------------------------------- translator
 def run_translator(c, only):
-    rc, out = sh([sys.executable, os.path.join(VERIF, "tools", "gen_ident_tables.py"), "--only", only])
+    rc, out = sh([sys.executable, os.path.join(VERIF, "tools", "gen_ident_tables.py"), "--only", only, "--repo", REPO])
+    if os.path.realpath(REPO) != "/repo":
+        # a run against another source tree (VERIF_REPO, e.g. a mutant) must not leave its tables in the shared
+        # Lean tree: regenerate from /repo when this process exits
+        import atexit
+        atexit.register(lambda: sh([sys.executable, os.path.join(VERIF, "tools", "gen_ident_tables.py"), "--only", only, "--repo", "/repo"]))
     try: info = json.loads(out.strip().split("\n")[-1])
     except Exception: info = {"translator_error": out[-500:]}
     if rc == 2 or "translator_error" in info:
@@ -95,7 +100,7 @@ def model_lookup(model, names):
     M = {}
     for n, o in zip(names, outs):
         d = parse_kv(o)
-        M[n] = {k: (unhx(v) if k not in ("valid", "rkw", "ckw", "rtemp", "ctemp", "rckw", "skw", "cskw", "rpre", "rfn") else v) for k, v in d.items()}
+        M[n] = {k: (unhx(v) if k not in ("valid", "rkw", "ckw", "rtemp", "ctemp", "rckw", "skw", "cskw", "rpre", "rfn", "rgp") else v) for k, v in d.items()}
     return M
 
 def dup_groups(idents):
